@@ -16,18 +16,19 @@ import (
 )
 
 type G struct {
-	id      int
-	resume  chan bool
-	done    bool
-	started bool
-	ready   func() bool // nil = runnable
-	what    string      // what it is blocked on
-	isMain  bool
-	daemon  bool
-	entry   string
-	preempt int
+	id       int
+	resume   chan bool
+	done     bool
+	started  bool
+	ready    func() bool // nil = runnable
+	what     string      // what it is blocked on
+	isMain   bool
+	daemon   bool
+	entry    string
+	preempt  int
 	yielding bool
 	exited   chan struct{}
+	epoch    int // number of times the goroutine handed the baton to another one
 }
 
 type abortG struct{}
@@ -47,21 +48,21 @@ type timer struct {
 }
 
 type Sched struct {
-	gs       []*G
-	cur      *G
-	chanID   int
-	fatal    interface{}
-	wg       sync.WaitGroup
-	timers   []*timer
-	now      int64 // virtual nanoseconds since start (concrete)
-	timerSeq int
-	abortCh  chan struct{}
-	noTimers bool // timers never fire (harness option)
-	switches int
-	yieldOnly  bool
+	gs            []*G
+	cur           *G
+	chanID        int
+	fatal         interface{}
+	wg            sync.WaitGroup
+	timers        []*timer
+	now           int64 // virtual nanoseconds since start (concrete)
+	timerSeq      int
+	abortCh       chan struct{}
+	noTimers      bool // timers never fire (harness option)
+	switches      int
+	yieldOnly     bool
 	preemptBudget int // remaining preemptions at synchronisation operations (G2)
-	maxPreempt int
-	preempts   int
+	maxPreempt    int
+	preempts      int
 }
 
 func (s *Sched) nextChanID() int { s.chanID++; return s.chanID }
@@ -209,6 +210,7 @@ func (e *Exec) reschedule(self *G) {
 			return
 		}
 		s.switches++
+		self.epoch++
 		s.cur = pick
 		pick.resume <- true
 		if self.done {
